@@ -6113,6 +6113,16 @@ class CodegenCtx:
             with result as body:
                 body.add(f"state->state = {self.dfa.states.index(action.end_target)};")
                 if transition is not None:
+                    if isinstance(action, AppendCharTo) and not transition.is_fallthrough and not is_end:
+                        # The byte this transition consumes was matched by the statement in front of the append; it is not what does not fit.
+                        # The handler starts at the next byte (an appended match, in contrast, hands over the very byte that does not fit).
+                        advance = "" if self._advances_before_actions(transition) else "++"
+                        if ProgramData.do(ProgramFlag.INDIRECT_START_PTR):
+                            body.add(f"if ({advance}(*start) == end) return {self.program_name.upper()}_OK;")
+                            body.add("inval = **start;")
+                        else:
+                            body.add(f"if ({advance}start == end) return {self.program_name.upper()}_OK;")
+                            body.add("inval = *start;")
                     body.add(f"goto repeatswitch;") # Fallthrough via switch
                 else:
                     body.add(f"return {self.program_name.upper()}_OK;") # end processing instructions
@@ -6312,6 +6322,14 @@ class CodegenCtx:
         if transition.target in self.dfa.accepting_states and not ProgramData.do(ProgramFlag.STRICT_DONE_TOKEN_GENERATION):
             return False
         return all(x.get_target_override_mode() == ActionOverrideMode.NONE for x in transition.actions)
+
+    def _advances_before_actions(self, transition: DFTransition):
+        """
+        Does the body of this (consuming, feed-time) transition advance the input before it performs the actions? (see _generate_transition_body)
+        """
+
+        immediate_done = transition.target in self.dfa.accepting_states and not ProgramData.do(ProgramFlag.STRICT_DONE_TOKEN_GENERATION) and all(x.error_handling for x in transition.target.transitions)
+        return any(x.may_return_early() for x in transition.actions) and not immediate_done
 
     def _transition_skip_action_label(self, transition: DFTransition):
         return f"skipaction_{id(transition)}"
